@@ -101,6 +101,24 @@ class StrEval:
         if isinstance(e, ast.Tuple):
             return ("tuple", tuple(self.ev(x) for x in e.elts))
         if isinstance(e, ast.List):
+            if any(isinstance(x, ast.Starred) for x in e.elts):
+                # [*xs, a, b] = xs + [a, b]
+                acc = None
+                run: list = []
+                for x in e.elts:
+                    if isinstance(x, ast.Starred):
+                        if run:
+                            piece = ("list", tuple(run))
+                            acc = piece if acc is None else ("listcat", acc, piece)
+                            run = []
+                        piece = self.ev(x.value)
+                        acc = piece if acc is None else ("listcat", acc, piece)
+                    else:
+                        run.append(self.ev(x))
+                if run:
+                    piece = ("list", tuple(run))
+                    acc = piece if acc is None else ("listcat", acc, piece)
+                return acc
             return ("list", tuple(self.ev(x) for x in e.elts))
         if isinstance(e, ast.JoinedStr):
             parts = []
@@ -156,8 +174,15 @@ class StrEval:
             return None
         if isinstance(e, ast.Constant) and isinstance(e.value, int):
             return e.value
-        if isinstance(e, ast.UnaryOp) and isinstance(e.op, ast.USub) and isinstance(e.operand, ast.Constant):
-            return -e.operand.value
+        if isinstance(e, ast.UnaryOp) and isinstance(e.op, ast.USub):
+            v = self._int(e.operand)
+            return -v
+        try:
+            v = self.ctx.folder.plain(self.ctx.folder.fold(self.f.module, e))
+        except Unfoldable:
+            v = None
+        if isinstance(v, int) and not isinstance(v, bool):
+            return v
         raise TermError(f"non-constant index `{norm(e)}`")
 
 
@@ -534,14 +559,34 @@ def fifo1(ctx: Ctx, chk) -> None:
     else:
         chk.refute(rule, fkey(init, qc), f"`{norm(qc)}` is not an unbounded FIFO asyncio.Queue (ordering or put_nowait totality is lost)", ctx.loc(init, qc))
     # all queue operations in the package
+    allowed = {"_receive": ("put_nowait",), "_receive_error": ("put_nowait",), "read": ("get", "task_done")}
+    ANCH_Q = ("_receive", "_receive_error", "_parse_mqtt_to_message", "_parse_message_to_mqtt", "_connect", "_disconnect", "_subscribe", "_publish", "_handle_incoming")
+    # a private helper of the transport that only the three queue owners call is part of them (judged written out)
+    via_helper: dict = {}
+    for fname in allowed:
+        f0 = mt.find_method(fname)
+        if f0 is None:
+            raise AnalysisError(f"anchor vanished: MQTTTransport.{fname}")
+        fi = ctx.inl(f0, lambda h: h.name not in ANCH_Q)
+        for hq in getattr(fi, "inlined", []):
+            via_helper.setdefault(hq, set()).add(f0)
+    helper_ok = {}
+    for hq, owners in via_helper.items():
+        hname = hq.rsplit(".", 1)[-1]
+        callers = [g_ for g_ in prog.all_functions() if g_.qualname != hq and any(isinstance(x, ast.Attribute) and x.attr == hname for x in ctx.own_nodes(g_))]
+        helper_ok[hq] = all(g_ in owners for g_ in callers)
     ops = []
     for f in prog.all_functions():
         for n in ctx.own_nodes(f):
             if isinstance(n, ast.Call):
                 fact = prog.call_fact(f.module, n)
                 if fact and fact[0] and fact[0].startswith("asyncio.queues.Queue."):
-                    ops.append((f, n, fact[0].rsplit(".", 1)[-1]))
-    allowed = {"_receive": ("put_nowait",), "_receive_error": ("put_nowait",), "read": ("get", "task_done")}
+                    op = fact[0].rsplit(".", 1)[-1]
+                    if helper_ok.get(f.qualname):
+                        for owner in via_helper[f.qualname]:
+                            ops.append((owner, n, op))
+                    else:
+                        ops.append((f, n, op))
     for f, n, op in ops:
         chk.instance(rule)
         key = fkey(f, n)
@@ -616,6 +661,7 @@ def _conditional(ctx, f, n) -> bool:
 
 
 def _item_shape(ctx, f, mtype: str, field: str, want) -> tuple[bool, str]:
+    f = ctx.inl(f, lambda h: h.name not in ("_receive", "_receive_error", "_parse_mqtt_to_message", "_parse_message_to_mqtt", "_connect", "_disconnect", "_subscribe", "_publish", "_handle_incoming"))
     puts = [n for n in ctx.own_nodes(f) if isinstance(n, ast.Call) and norm(n.func).endswith("put_nowait")]
     if len(puts) != 1 or len(puts[0].args) != 1:
         return False, f"{f.qualname}: put_nowait shape not recognised"
